@@ -139,3 +139,21 @@ def h_batch(ic, it, a_first, ib):
     trace('seen', seen, ta.state, tb.state)
     _check_delivery('t1', bcur, btgt, seq_b, tb.state)
     _check_delivery('t0', cur,  tgt,  seq_a, ta.state)
+
+
+# ------------------------------------------------------------------------------
+# a final task stays what it is when its pilot ends afterwards (the other way
+# a task state can be written on the client: TaskManager._pilot_state_cb)
+#
+@obligation(params={'bind': (0, 2), 'fin': (15, 17), 'pfin': (5, 7),
+                    'first': (1, 2), 'both': 'bool'},
+            timeout={'quick': 200, 'thorough': 400},
+            funcs=['radical/pilot/task_manager.py:TaskManager._pilot_state_cb',
+                   'radical/pilot/task.py:Task._update'],
+            bounds='as C13 h_pilot_final restricted to a task that is already '
+                   'DONE / FAILED / CANCELED (bound to p0 / p1 / unbound): the '
+                   'pilot(s) end in DONE / FAILED / CANCELED afterwards')
+def h_final_survives_pilot_end(bind, fin, pfin, first, both):
+    """once final, a task's state never changes - also when its pilot dies"""
+    import harness.c13 as c13
+    c13.h_pilot_final(bind, fin, pfin, first, both)
